@@ -348,7 +348,12 @@ func steerServeDuringShutdown(workers int, emit func(string)) {
 			time.Sleep(500 * time.Microsecond)
 		}
 	}()
-	time.Sleep(15 * time.Millisecond)
+	// meanwhile keep submitting to the group of the callback that is still running: if the service
+	// lets itself be served again too early, one of these runs beside it
+	for k := 0; k < 15; k++ {
+		e.submit("busy", "", nil)
+		time.Sleep(time.Millisecond)
+	}
 	close(stop)
 	time.Sleep(2 * time.Millisecond)
 	close(unblock)
@@ -362,6 +367,120 @@ func steerServeDuringShutdown(workers int, emit func(string)) {
 	flushNotes(e.rec, emit)
 }
 
+// serveCycle runs one more ordinary Serve / callback / Shutdown cycle on a fresh connection:
+// the service must be usable again after whatever happened before.
+func (e *steerEnv) serveCycle() {
+	e.conn = recconn.New()
+	served := make(chan struct{})
+	e.s.SetOnServe(func(*res.Service) { close(served) })
+	e.done = make(chan error, 1)
+	go func() { e.done <- e.s.Serve(e.conn) }()
+	if waitCh(served, "serve again") != nil {
+		e.rec.add("h.serve.hung", "", 0)
+		atomic.StoreInt32(&poolHung, 1)
+		return
+	}
+	_, ret, _ := e.submit("again", "", nil)
+	waitCh(ret, "callback after restart")
+	e.shutdown()
+}
+
+// steerShutdownInOnServe: Shutdown is called, and completes, while the OnServe callback is
+// still running (the listener has not been started yet). Serve must return once the callback
+// does, and the service must be restartable.
+func steerShutdownInOnServe(workers int, emit func(string)) {
+	if atomic.LoadInt32(&poolHung) != 0 {
+		return
+	}
+	e := &steerEnv{rec: &recorder{byRep: map[string]int{}, grp: map[int]string{}}, g: &gateCtl{holds: map[int]*hold{}}}
+	setHooks(e.rec.add, e.g.fn)
+	defer e.close()
+	emit("reset")
+	e.s = res.NewService("pool")
+	e.s.SetLogger(svc.NopLogger{})
+	e.s.SetWorkerCount(workers)
+	e.s.Handle("r.$id", res.Call("do", func(r res.CallRequest) { r.OK(nil) }))
+	e.conn = recconn.New()
+	entered := make(chan struct{})
+	release := make(chan struct{})
+	e.s.SetOnServe(func(*res.Service) { close(entered); <-release })
+	e.done = make(chan error, 1)
+	go func() { e.done <- e.s.Serve(e.conn) }()
+	if waitCh(entered, "OnServe") != nil {
+		return
+	}
+	e.rec.add("h.shutdown.begin", "", 0)
+	sd := make(chan struct{})
+	go func() { e.s.Shutdown(); close(sd) }()
+	select {
+	case <-sd:
+		e.rec.add("h.shutdown.end", "", 0)
+	case <-time.After(3 * time.Second):
+		e.rec.add("h.shutdown.hung", "", 0)
+		atomic.StoreInt32(&poolHung, 1)
+		close(release)
+		flushNotes(e.rec, emit)
+		return
+	}
+	close(release)
+	select {
+	case <-e.done:
+	case <-time.After(3 * time.Second):
+		e.rec.add("h.serve.hung", "", 0)
+		atomic.StoreInt32(&poolHung, 1)
+		flushNotes(e.rec, emit)
+		return
+	}
+	e.rec.add("h.connclosed", "", e.conn.ClosedCount())
+	e.serveCycle()
+	flushNotes(e.rec, emit)
+}
+
+// steerSubscribeFails: a subscription fails during Serve. The service shuts itself down:
+// Serve must return, the connection must be closed once, and the service must be restartable.
+func steerSubscribeFails(workers int, failIdx int, emit func(string)) {
+	if atomic.LoadInt32(&poolHung) != 0 {
+		return
+	}
+	e := &steerEnv{rec: &recorder{byRep: map[string]int{}, grp: map[int]string{}}, g: &gateCtl{holds: map[int]*hold{}}}
+	setHooks(e.rec.add, e.g.fn)
+	defer e.close()
+	emit("reset")
+	e.s = res.NewService("pool")
+	e.s.SetLogger(svc.NopLogger{})
+	e.s.SetWorkerCount(workers)
+	e.s.Handle("r.$id", res.Call("do", func(r res.CallRequest) { r.OK(nil) }))
+	e.conn = recconn.New()
+	e.conn.FailNext(failIdx)
+	e.done = make(chan error, 1)
+	e.rec.add("h.shutdown.begin", "", 0) // the shutdown is the service's own
+	go func() { e.done <- e.s.Serve(e.conn) }()
+	select {
+	case <-e.done:
+		e.rec.add("h.shutdown.end", "", 0)
+	case <-time.After(3 * time.Second):
+		e.rec.add("h.serve.hung", "", 0)
+		atomic.StoreInt32(&poolHung, 1)
+		flushNotes(e.rec, emit)
+		return
+	}
+	// the self-triggered Shutdown runs on its own goroutine: wait until the service is stopped
+	deadline := time.Now().Add(3 * time.Second)
+	for e.s.Conn() != nil && time.Now().Before(deadline) {
+		time.Sleep(200 * time.Microsecond)
+	}
+	if e.s.Conn() != nil {
+		e.rec.add("h.shutdown.hung", "", 0)
+		atomic.StoreInt32(&poolHung, 1)
+		flushNotes(e.rec, emit)
+		return
+	}
+	time.Sleep(2 * time.Millisecond)
+	e.rec.add("h.connclosed", "", e.conn.ClosedCount())
+	e.serveCycle()
+	flushNotes(e.rec, emit)
+}
+
 func steerAll(emit func(string)) {
 	for _, w := range []int{1, 2, 3} {
 		steerLateSubmit(w, "slow", emit)
@@ -371,5 +490,8 @@ func steerAll(emit func(string)) {
 		steerSignalGap(w, emit)
 		steerRestartStale(w, emit)
 		steerServeDuringShutdown(w, emit)
+		steerShutdownInOnServe(w, emit)
+		steerSubscribeFails(w, 0, emit)
+		steerSubscribeFails(w, 2, emit)
 	}
 }
